@@ -13,9 +13,9 @@ TWINS = {
         ("Bitvector::signed_sub_overflow_checked", "c01.sub_ovf"),
         ("Bitvector::signed_mult_with_overflow_flag", "c01.mul_flag"),
         ("BitvectorDomain::bin_op", "c01.domain_bin_op"),
-        ("BitvectorDomain::un_op", "c01.un_op"),
-        ("BitvectorDomain::cast", "c01.cast"),
-        ("BitvectorDomain::subpiece", "c01.subpiece"),
+        ("BitvectorDomain::un_op", "c01.domain_un_op"),
+        ("BitvectorDomain::cast", "c01.domain_cast"),
+        ("BitvectorDomain::subpiece", "c01.domain_subpiece"),
     ],
 }
 
@@ -55,8 +55,8 @@ PROPS = {
         "level_text": "Every function of BitvectorExtended for Bitvector (cast, subpiece, un_op, bin_op with all 34 operations, the three overflow helpers, resize helpers, bytesize), BitvectorDomain's RegisterDomain/AbstractDomain/SizedDomain/HasTop impls and Expression::bytesize is extracted verbatim from /repo on each run and verified by Verus against a P-Code oracle written over mathematical integers: Ok(v) implies v is exactly the P-Code value, Err exactly for float / >8-byte mult,div / division by zero. Unbounded in operand values and widths (1 bit .. 2^28 bits).",
         "level_note": "Trusted: the apint 0.2.0 contracts in shim/apint*.rs (external_body; the thorough tier cross-checks them against the real crate with Kani and a twin sweep), derive-generated code restated in shim/bytesize.rs and unit glue, rule R5 (failed assert diverges), 64-bit usize, widths <= 2^28 bits. Floating point is only proved to answer 'unknown'. Bool* operations are specified as bitwise on their operands. signed_mult_with_overflow_flag needs width >= 2 bits.",
         "design_ref": "DESIGN.md section 3 (C01)",
-        "default_twins": ["c01.bin_op", "c01.domain_bin_op", "c01.un_op", "c01.cast", "c01.subpiece", "c01.add_ovf", "c01.sub_ovf", "c01.mul_flag"],
-        "sweep_twins": ["c01.apint_err", "c01.bin_op", "c01.domain_bin_op", "c01.un_op", "c01.cast", "c01.subpiece", "c01.add_ovf", "c01.sub_ovf", "c01.mul_flag"],
+        "default_twins": ["c01.bin_op", "c01.domain_bin_op", "c01.un_op", "c01.cast", "c01.subpiece", "c01.add_ovf", "c01.sub_ovf", "c01.mul_flag", "c01.domain_cast", "c01.domain_un_op", "c01.domain_subpiece"],
+        "sweep_twins": ["c01.apint_err", "c01.bin_op", "c01.domain_bin_op", "c01.un_op", "c01.cast", "c01.subpiece", "c01.add_ovf", "c01.sub_ovf", "c01.mul_flag", "c01.domain_cast", "c01.domain_un_op", "c01.domain_subpiece"],
         "kani": ["c01"],
         "not_covered": [],
         "assumptions": [
